@@ -9,7 +9,7 @@
 use crate::common::*;
 use crate::explore::*;
 use crate::inject::{Event, Fault};
-use crate::keychain::Identifier;
+use crate::keychain::{ExtKeychainPath, Identifier};
 use crate::libwallet::api_impl::{foreign, owner};
 use crate::libwallet::{BlockFees, IssueInvoiceTxArgs, OutputStatus};
 use crate::world::*;
@@ -398,6 +398,24 @@ pub fn replay(payload: &Value) -> i32 {
 		println!("{} same-instance cases, problems: {:?}", n, p.iter().map(|x| (&x.0, &x.1)).collect::<Vec<_>>());
 		return if p.is_empty() { 0 } else { 1 };
 	}
+	if payload["kind"] == "confirm-order" {
+		let only = (
+			payload["k"].as_u64().unwrap() as usize,
+			payload["perm"].as_array().unwrap().iter().map(|x| x.as_u64().unwrap() as usize).collect::<Vec<_>>(),
+			payload["one_block"].as_bool().unwrap(),
+			payload["change"].as_u64().unwrap() as usize,
+		);
+		return match confirm_order_cases(&scratch_root(), Some(only)) {
+			Ok((_, p)) => {
+				println!("problems: {:?}", p.iter().map(|x| (&x.0, &x.1)).collect::<Vec<_>>());
+				if p.is_empty() { 0 } else { 1 }
+			}
+			Err(e) => {
+				println!("replay failed: {}", e);
+				2
+			}
+		};
+	}
 	let path: Vec<Op> = serde_json::from_value(payload["path"].clone()).unwrap();
 	let m = M { with_crashes: true };
 	match run_path(&m, &format!("{}/c15-replay", scratch_root()), &path) {
@@ -475,6 +493,146 @@ fn same_instance_cases(root: &str) -> (u64, Vec<(String, String, Value)>) {
 	(n, problems)
 }
 
+fn permutations(n: usize) -> Vec<Vec<usize>> {
+	fn rec(cur: &mut Vec<usize>, used: &mut Vec<bool>, out: &mut Vec<Vec<usize>>) {
+		if cur.len() == used.len() {
+			out.push(cur.clone());
+			return;
+		}
+		for i in 0..used.len() {
+			if !used[i] {
+				used[i] = true;
+				cur.push(i);
+				rec(cur, used, out);
+				cur.pop();
+				used[i] = false;
+			}
+		}
+	}
+	let mut out = vec![];
+	rec(&mut vec![], &mut vec![false; n], &mut out);
+	out
+}
+
+/// one confirmation-order case; returns (finding key suffix, description) if the restored wallet is wrong
+fn confirm_order_case(root: &str, k: usize, perm: &[usize], one_block: bool, change: usize) -> Result<Option<(String, String)>, String> {
+	let dir = format!("{}/c15-order-{}-{}-{}-{}", root, k, perm.iter().map(|x| x.to_string()).collect::<Vec<_>>().join(""), one_block, change);
+	let w = World::create(&dir, &[("A", "A"), ("B", "B"), ("M", "M")]);
+	let r = (|| -> Result<Option<(String, String)>, crate::libwallet::Error> {
+		w.mine_n("A", if change > 0 { 1 } else { 0 });
+		w.mine_n("B", 4);
+		w.mine_n("M", 3);
+		w.w("A").refresh()?;
+		w.w("B").refresh()?;
+		let a = w.w("A");
+		let b = w.w("B");
+		// keys are derived in this order ...
+		let mut txs = vec![];
+		for _ in 0..k {
+			let s1 = b.init_send(default_args(G))?;
+			b.lock(&s1)?;
+			let s2 = a.receive(&s1, None)?;
+			let s3 = b.finalize(&s2)?;
+			txs.push(s3.tx_or_err()?.clone());
+		}
+		if change > 0 {
+			// the wallet's own send: its change outputs sit in one block, ordered by commitment
+			let mut args = default_args(2 * G);
+			args.num_change_outputs = change as u32;
+			let s1 = a.init_send(args)?;
+			a.lock(&s1)?;
+			let s2 = b.receive(&s1, None)?;
+			let s3 = a.finalize(&s2)?;
+			a.post(s3.tx_or_err()?)?;
+			w.mine("M")?;
+		}
+		// ... and confirmed in that one
+		for i in perm.iter() {
+			b.post(&txs[*i])?;
+			if !one_block {
+				w.mine("M")?;
+			}
+		}
+		if one_block {
+			w.mine("M")?;
+		}
+		w.mine_n("M", 1);
+		let owned = chain_owned(&w.node, "A");
+		let parent = ExtKeychainPath::new(2, 0, 0, 0, 0).to_identifier();
+		let on_chain: Vec<u32> = owned.iter().filter(|x| x.key_id.parent_path() == parent).map(|x| x.key_id.to_path().last_path_index()).collect();
+		if on_chain.len() < k {
+			return Err(crate::libwallet::Error::GenericError(format!("only {} of the wallet's outputs reached the chain", on_chain.len())));
+		}
+		let max_chain = *on_chain.iter().max().unwrap();
+		// restore from the seed
+		let rw = WalletH::open(&w.dir, "R", "A", &w.node);
+		rw.scan(Some(1), false)?;
+		let idx = rw.with(|x| x.current_child_index(&parent))?;
+		if idx <= max_chain {
+			return Ok(Some((
+				"restore/next-path-not-beyond-chain/confirmation-order".to_owned(),
+				format!("outputs with child indices {:?} (chain order) are on chain; after restore and scan the next child index is {} (not beyond {})", on_chain, idx, max_chain),
+			)));
+		}
+		// and the next key really is a new one
+		let s1 = b.init_send(default_args(G))?;
+		b.lock(&s1)?;
+		rw.receive(&s1, None)?;
+		let chain_keys: BTreeSet<String> = owned.iter().map(|x| x.key_id.to_bip_32_string()).collect();
+		let mut seen = BTreeSet::new();
+		for o in rw.outputs() {
+			let kp = o.key_id.to_bip_32_string();
+			if !seen.insert(kp.clone()) || (o.status == OutputStatus::Unconfirmed && chain_keys.contains(&kp)) {
+				return Ok(Some((
+					"restore/path-handed-out-twice/confirmation-order".to_owned(),
+					format!("the restored wallet bound path {} to a new output although an output on chain uses it (chain order of indices {:?})", kp, on_chain),
+				)));
+			}
+		}
+		Ok(None)
+	})();
+	w.close();
+	let _ = std::fs::remove_dir_all(&dir);
+	r.map_err(|e| format!("confirmation-order case k={} perm={:?} one_block={} change={}: {}", k, perm, one_block, change, e))
+}
+
+/// The order in which outputs reach the chain is not the order in which their keys were derived: a key
+/// is bound when a slate is received, the output confirms when the sender posts. For 2 and 3 incoming
+/// payments: every order of posting x {one block each, all in one block} [x the wallet's own send with 2/3
+/// change outputs confirmed before], then restore from the seed, scan, and derive once more.
+fn confirm_order_cases(root: &str, only: Option<(usize, Vec<usize>, bool, usize)>) -> Result<(u64, Vec<(String, String, Value)>), String> {
+	let mut cases = vec![];
+	for k in [2usize, 3] {
+		for perm in permutations(k) {
+			for one_block in [false, true] {
+				cases.push((k, perm.clone(), one_block, 0usize));
+			}
+		}
+	}
+	for change in [2usize, 3] {
+		for perm in permutations(2) {
+			cases.push((2, perm, false, change));
+		}
+	}
+	if let Some(o) = only {
+		cases = vec![o];
+	}
+	let res = par_map(&cases, workers(), |_, (k, perm, one_block, change)| confirm_order_case(root, *k, perm, *one_block, *change));
+	let mut problems = vec![];
+	for (c, r) in cases.iter().zip(res.into_iter()) {
+		match r {
+			Err(e) => return Err(e),
+			Ok(None) => {}
+			Ok(Some((key, what))) => {
+				if !problems.iter().any(|p: &(String, String, Value)| p.0 == key) {
+					problems.push((key, format!("{} [payments {}, posted in order {:?}, {}, own change outputs {}]", what, c.0, c.1, if c.2 { "one block" } else { "one block each" }, c.3), json!({"kind": "confirm-order", "k": c.0, "perm": c.1, "one_block": c.2, "change": c.3})));
+				}
+			}
+		}
+	}
+	Ok((cases.len() as u64, problems))
+}
+
 pub fn run(_args: &[String]) -> i32 {
 	let mut rep = Report::new("C15", "model_checking");
 	let thorough = tier() == Tier::Thorough;
@@ -510,6 +668,15 @@ pub fn run(_args: &[String]) -> i32 {
 		rep.add_finding(Finding { key: format!("C15/{}", k), what, replay: payload });
 	}
 	rep.cov("same_instance_cases", json!(n_same));
+	match confirm_order_cases(&scratch_root(), None) {
+		Ok((n, problems)) => {
+			for (k, what, payload) in problems {
+				rep.add_finding(Finding { key: format!("C15/{}", k), what, replay: payload });
+			}
+			rep.cov("confirmation_order_cases", json!(n));
+		}
+		Err(e) => mach = Some(e),
+	}
 	rep.cov("states", json!(states));
 	rep.cov("transitions", json!(transitions));
 	rep.cov("traces_validated_against_impl", json!(transitions));
